@@ -828,14 +828,18 @@ def steps_of(ev, after_mark=None):
     return out
 
 
-def first_diff(a, b, path=""):
+def first_diff(a, b, path="", tol=0.0):
+    if tol and isinstance(a, (int, float)) and isinstance(b, (int, float)) and not isinstance(a, bool):
+        if abs(a - b) <= tol * max(1.0, abs(a), abs(b)) or (a != a and b != b):
+            return None
+        return "%s: %r vs %r" % (path, a, b)
     if type(a) != type(b) and not (isinstance(a, (int, float)) and isinstance(b, (int, float))):
         return "%s: %r vs %r" % (path, a, b)
     if isinstance(a, dict):
         if set(a) != set(b):
             return "%s: keys %s vs %s" % (path, sorted(a), sorted(b))
         for k in a:
-            d = first_diff(a[k], b[k], path + "/" + str(k))
+            d = first_diff(a[k], b[k], path + "/" + str(k), tol)
             if d:
                 return d
         return None
@@ -843,7 +847,7 @@ def first_diff(a, b, path=""):
         if len(a) != len(b):
             return "%s: lengths %d vs %d" % (path, len(a), len(b))
         for i, (x, y) in enumerate(zip(a, b)):
-            d = first_diff(x, y, "%s[%d]" % (path, i))
+            d = first_diff(x, y, "%s[%d]" % (path, i), tol)
             if d:
                 return d
         return None
@@ -894,15 +898,35 @@ def gen_equiv(rng, idx):
     if kind in ("load", "loadstr"):
         K = rng.randint(1, case["T"] - 2)
         cfg = "config <<EOC\n" + glob + cvtxt + btxt + "EOC\n"
+        # half of the cases: the module that loads through the script defined its objects in another order than the one
+        # that wrote the state (objects are matched to state blocks by name); then sums run in another order: 1e-9
+        reorder = rng.random() < 0.5 and (len(case["cvs"]) > 1 or len(case["biases"]) > 1) and not any(cv["ext"] for cv in case["cvs"])
+        cfg_b = cfg
+        if reorder:
+            # make sure that the state matters at both ends of the list: hills-only metadynamics on a scalar variable
+            sc = [cv for cv in case["cvs"] if cv["vtype"] == "scalar" and not cv["ext"]]
+            if sc:
+                def mx(nm, w):
+                    return dict(name=nm, cv=sc[0]["name"], kind="meta", text="metadynamics {\n  name %s\n  colvars %s\n  hillWeight %s\n  hillWidth 1.5\n"
+                                "  newHillFrequency 1\n  useGrids off\n}\n" % (nm, sc[0]["name"], w))
+                case["biases"] = [mx("mx0", "0.25")] + case["biases"] + [mx("mx1", "0.375")]
+                btxt = "".join(b["text"] for b in case["biases"])
+                cfg = "config <<EOC\n" + glob + cvtxt + btxt + "EOC\n"
+                w = None
+            cfg_b = "config <<EOC\n" + glob + "\n".join(cv["text"] for cv in reversed(case["cvs"])) + "\nEOC\n"
+            if btxt:
+                cfg_b += "config <<EOC\n" + "".join(b["text"] for b in reversed(case["biases"])) + "EOC\n"
+        rsub = ":reordered" if reorder else ""
+        rtol = 1e-9 if reorder else 0.0
         w = header(case) + "module\n" + cfg + "init\n" + step_block(case, 0, K + 1) + "save PREFIX.colvars.state\nsavestr\n"
         if kind == "load":
             a = header(case) + "module\n" + cfg + "inprefix PREFIX\ninit\nmark go\n" + step_block(case, K)
             arg = rng.choice(["PREFIX", "PREFIX.colvars.state"])
-            b = header(case) + "module\n" + cfg + "init\nscript " + json.dumps(["cv", "load", arg]) + "\nmark go\n" + step_block(case, K)
-            return dict(kind=kind, idx=idx, sub="prefix" if arg == "PREFIX" else "filename", scn={"W": w, "A": a, "B": b}, mark="go", case=case)
+            b = header(case) + "module\n" + cfg_b + "init\nscript " + json.dumps(["cv", "load", arg]) + "\nmark go\n" + step_block(case, K)
+            return dict(kind=kind, idx=idx, sub=("prefix" if arg == "PREFIX" else "filename") + rsub, scn={"W": w, "A": a, "B": b}, mark="go", case=case, tol=rtol)
         a = header(case) + "module\n" + cfg + "init\nloadstr <<EOS\nSTATE_TEXTEOS\nmark go\n" + step_block(case, K)
-        b = header(case) + "module\n" + cfg + "init\nscript [\"cv\", \"loadfromstring\", STATE_JSON]\nmark go\n" + step_block(case, K)
-        return dict(kind=kind, idx=idx, sub="string", scn={"W": w, "A": a, "B": b}, mark="go", case=case)
+        b = header(case) + "module\n" + cfg_b + "init\nscript [\"cv\", \"loadfromstring\", STATE_JSON]\nmark go\n" + step_block(case, K)
+        return dict(kind=kind, idx=idx, sub="string" + rsub, scn={"W": w, "A": a, "B": b}, mark="go", case=case, tol=rtol)
     if kind == "delete":
         # A: everything defined, some objects deleted through the script; B: those objects never defined
         noext = [cv for cv in case["cvs"] if not cv["ext"]]
@@ -1061,9 +1085,9 @@ def check_equiv(c, job, res, sps):
                      "while in the module that never defined that bias it is computed (value %s)" % (x.get("it"), off[0], x["cv"][off[0]]["x"], y["cv"][off[0]]["x"]))
                 return False
     for x, y in zip(sa, sb):
-        d = first_diff(x, y)
+        d = first_diff(x, y, tol=job.get("tol", 0.0))
         if d:
-            viol("equiv:%s" % kind, "step %s: %s" % (x.get("it"), d))
+            viol("equiv:%s" % kind + (":reordered" if job.get("tol") else ""), "step %s: %s" % (x.get("it"), d))
             return False
     c.bump("equiv_steps_compared", len(sa))
     return True
@@ -1151,7 +1175,7 @@ def run(tier, replay):
         c.count()
         if check_equiv(c, job, res, sps):
             neq_ok[job["kind"]] += 1
-            c.nontrivial("equiv|%s|%s" % (job["kind"], job["sub"].split("@")[0].split(":")[0]))
+            c.nontrivial("equiv|%s|%s%s" % (job["kind"], job["sub"].split("@")[0].split(":")[0], "|reordered" if job.get("tol") else ""))
     c.extra["equivalence_pairs_equal"] = dict(neq_ok)
     c.sample({"agreement_scenarios": nag_ok, "equivalence_pairs": dict(neq_ok), "fuzz_executions": execs,
               "commands_not_reached": missing[:10]})
